@@ -1,4 +1,5 @@
 import Gallia.Model.Replay
+import Gallia.Proofs.Lemmas.ReplayState
 namespace Gallia.Replay
 open Gallia
 
@@ -115,11 +116,34 @@ theorem replayAll_append (rows : List Row) (s : Srv) (a b : List Bytes) :
   | nil => rfl
   | cons q qs ih => simp only [List.cons_append, replayAll, runSrv, ih]
 
+@[simp] theorem view_id (sel : Selector) (d : DbRow) : (DbRow.view sel d).id = d.id := by
+  unfold DbRow.view; split <;> rfl
+
+@[simp] theorem view_req (sel : Selector) (d : DbRow) : (DbRow.view sel d).req = d.req := by
+  unfold DbRow.view; split <;> rfl
+
+@[simp] theorem view_resp (sel : Selector) (d : DbRow) : (DbRow.view sel d).resp = d.resp := by
+  unfold DbRow.view; split <;> rfl
+
+theorem view_unselected (sel : Selector) (d : DbRow) (h : selects sel d.run = false) : (DbRow.view sel d).selected = false := by
+  unfold DbRow.view; split <;> simp [h]
+
+theorem view_selected (sel : Selector) (d : DbRow) :
+    (DbRow.view sel d).selected = (selects sel d.run && (decodeSt d.state).isSome) := by
+  unfold DbRow.view; split <;> simp_all
+
 theorem record_view (sel : Selector) (ri : RunInfo) (hsel : selects sel ri = true) (k : Nat) (st : St) (h : List Exch) :
     (recordDb ri k st h).map (DbRow.view sel) = record k st h := by
   induction h generalizing k st with
   | nil => rfl
-  | cons x xs ih => simp only [recordDb, record, List.map_cons, DbRow.view, hsel, ih]
+  | cons x xs ih => simp only [recordDb, record, List.map_cons, DbRow.view, decodeSt_toJson, hsel, ih]
+
+/-- an OEM recording (further state keys behind the two standard ones) looks the same to a server in a plain `ECUState` -/
+theorem recordDbX_view (sel : Selector) (ri : RunInfo) (hsel : selects sel ri = true) (k : Nat) (st : St) (h : List (Exch × JObj)) :
+    (recordDbX ri k st h).map (DbRow.view sel) = record k st (h.map (·.1)) := by
+  induction h generalizing k st with
+  | nil => rfl
+  | cons x xs ih => simp only [recordDbX, record, List.map_cons, DbRow.view, decodeSt_toJson_append, hsel, ih]
 
 /-- one replay step at the head of the recorded suffix: the `id > last` query finds exactly the row of this exchange -/
 theorem replayStep_head (rows : List Row) (huniq : ∀ r ∈ rows, ∀ r' ∈ rows, r.id = r'.id → r = r')
@@ -177,5 +201,113 @@ theorem replayStep_wrap (rows : List Row) (huniq : ∀ r ∈ rows, ∀ r' ∈ ro
       exact (hall r hr hp.1.1.1).1
     · intro r hr hid; exact huniq r hr row0 hrow0 hid
   simp only [replayStep, hnone, hpick]; rfl
+
+/-- invariant form: replaying the rest `h` of a history whose rows start at id `k`, from the state the client
+    logged, with `last` pointing below `k` -/
+theorem replay_suffix_core (rows : List Row) (huniq : ∀ r ∈ rows, ∀ r' ∈ rows, r.id = r'.id → r = r')
+    (h : List Exch) (k : Nat) (st : St) (last : Option Nat)
+    (hrec : ∀ r ∈ record k st h, r ∈ rows)
+    (hlow : ∀ r ∈ rows, r.selected = true → r.id < k → ∃ l, last = some l ∧ r.id ≤ l)
+    (hlast : ∀ l, last = some l → l < k)
+    (hhigh : ∀ r ∈ rows, r.selected = true → k ≤ r.id → r ∈ record k st h ∨ k + h.length ≤ r.id)
+    (hagree : clientStates st h = serverStates st h) :
+    replayAll rows ⟨st, last⟩ (h.map (·.req)) = h.map (·.resp) := by
+  induction h generalizing k st last with
+  | nil => rfl
+  | cons x xs ih =>
+    let row0 : Row := ⟨k, true, st, x.req, x.resp⟩
+    have hrow0 : row0 ∈ rows := hrec row0 (by simp [record, row0])
+    have hpick : minRow (fun r => matchesQ st x.req r && afterLast last r.id) rows = some row0 := by
+      apply minRow_unique hrow0
+      · have : matchesQ st x.req row0 = true := by simp [matchesQ, row0]
+        simp only [this, Bool.true_and]
+        cases hl : last with
+        | none => rfl
+        | some l => simpa [row0, afterLast] using hlast l hl
+      · intro r hr hp
+        simp only [Bool.and_eq_true, matchesQ] at hp
+        obtain ⟨⟨⟨hsel, _⟩, _⟩, hgt⟩ := hp
+        show k ≤ r.id
+        by_cases hlt : r.id < k
+        · obtain ⟨l, hl, hle⟩ := hlow r hr hsel hlt
+          rw [hl] at hgt
+          simp only [afterLast, decide_eq_true_eq] at hgt
+          omega
+        · omega
+      · intro r hr hid; exact huniq r hr row0 hrow0 hid
+    have hstep : replayStep rows ⟨st, last⟩ x.req = (⟨srvNext st x.resp, some k⟩, x.resp) := by
+      simp only [replayStep, hpick]; rfl
+    simp only [List.map_cons, replayAll, hstep]
+    congr 1
+    cases xs with
+    | nil => rfl
+    | cons y ys =>
+      rw [clientStates_cons, serverStates_cons] at hagree
+      have htail := (List.cons.inj hagree).2
+      have hst : clientUpdate st x.resp = srvNext st x.resp := by
+        rw [clientStates_cons, serverStates_cons] at htail
+        exact (List.cons.inj htail).1
+      rw [← hst]
+      apply ih (k + 1) (clientUpdate st x.resp) (some k)
+      · intro r hr; exact hrec r (by rw [record_cons]; simp [hr])
+      · intro r _ _ hlt; exact ⟨k, rfl, by omega⟩
+      · intro l hl; injection hl with hl; omega
+      · intro r hr hsel hge
+        rcases hhigh r hr hsel (by omega) with hmem | hbig
+        · rw [record_cons, List.mem_cons] at hmem
+          rcases hmem with rfl | hmem
+          · have : k + 1 ≤ k := hge
+            omega
+          · exact Or.inl hmem
+        · right; simp only [List.length_cons] at hbig ⊢; omega
+      · have h' := htail
+        rw [← hst] at h'
+        exact h'
+
+
+/-- the server after the recorded suffix: it sits in the state the recorded replies lead to, and its cursor on the last row -/
+theorem replay_suffix_srv_core (rows : List Row) (huniq : ∀ r ∈ rows, ∀ r' ∈ rows, r.id = r'.id → r = r')
+    (h : List Exch) (k : Nat) (st : St) (last : Option Nat)
+    (hrec : ∀ r ∈ record k st h, r ∈ rows)
+    (hlow : ∀ r ∈ rows, r.selected = true → r.id < k → ∃ l, last = some l ∧ r.id ≤ l)
+    (hlast : ∀ l, last = some l → l < k)
+    (hagree : clientStates st h = serverStates st h) :
+    (runSrv rows ⟨st, last⟩ (h.map (·.req))).st = serverFinal st h ∧
+    (h ≠ [] → (runSrv rows ⟨st, last⟩ (h.map (·.req))).last = some (k + h.length - 1)) := by
+  induction h generalizing k st last with
+  | nil => exact ⟨rfl, fun hne => absurd rfl hne⟩
+  | cons x xs ih =>
+    have hstep := replayStep_head rows huniq x xs k st last hrec hlow hlast
+    simp only [List.map_cons, runSrv, hstep, serverFinal]
+    cases xs with
+    | nil => exact ⟨rfl, fun _ => by simp [runSrv]⟩
+    | cons y ys =>
+      rw [clientStates_cons, serverStates_cons] at hagree
+      have htail := (List.cons.inj hagree).2
+      have hst : clientUpdate st x.resp = srvNext st x.resp := by
+        rw [clientStates_cons, serverStates_cons] at htail
+        exact (List.cons.inj htail).1
+      have := ih (k + 1) (srvNext st x.resp) (some k)
+        (by intro r hr; exact hrec r (by rw [record_cons, hst]; simp [hr]))
+        (by intro r _ _ hlt; exact ⟨k, rfl, by omega⟩)
+        (by intro l hl; injection hl with hl; omega)
+        (by rw [← hst]; rw [← hst] at htail; exact htail)
+      refine ⟨this.1, fun _ => ?_⟩
+      rw [this.2 (by simp)]
+      simp only [List.length_cons]
+      congr 1; omega
+
+
+theorem fromBE2_eq (a c : UInt8) : fromBE [a, c] = 0xF186 ↔ a = 0xF1 ∧ c = 0x86 := by
+  have h : fromBE [a, c] = a.toNat * 256 + c.toNat := by simp [fromBE]
+  rw [h]
+  have ha := a.toNat_lt; have hc := c.toNat_lt
+  constructor
+  · intro he
+    have h1 : a.toNat = 0xF1 := by omega
+    have h2 : c.toNat = 0x86 := by omega
+    exact ⟨UInt8.toNat_inj.1 (by simpa using h1), UInt8.toNat_inj.1 (by simpa using h2)⟩
+  · rintro ⟨rfl, rfl⟩; rfl
+
 
 end Gallia.Replay
